@@ -29,15 +29,31 @@ void harness(void)
 	V_FILL(in_data);
 	V_REQ(in_used <= CAP && in_len <= in_used && in_add >= 1 && (size_t) in_add <= in_used - in_len && in_k < CAP);
 	/* post data behind the new element: room for the terminator (otherwise the buffer is grown, not the subject here) */
+#ifdef BINARY
+	V_REQ(in_used - in_len - (size_t) in_add >= 2);
+#else
 	V_REQ(in_used - in_len - (size_t) in_add >= 1);
+#endif
 	/* a well formed path: empty, or ends with the assign character behind its last element */
 	V_REQ(in_len == 0 || in_len >= 2);
 	for (i = 0; i < CAP; i++) hb.data[i] = in_data[i];
 	V_REQ(in_len == 0 || hb.data[in_len - 1] == 0);
 	hb.b._used = in_used;
 	path.base = hb.data; path.len = in_len; path.first = in_len ? in_first : 0; path.flags = MPT_PATHFLAG(HasArray);
+#ifdef BINARY
+	path.flags |= MPT_PATHFLAG(SepBinary);
+#endif
 	for (i = 0; i < CAP; i++) if (i >= in_len && i < in_len + (size_t) in_add && in_data[i] == path.sep) has_sep = 1;
 
+#ifdef BINARY
+	/* length-linked format: any byte may be part of an element; every element is accepted and taken off again whole */
+	r = mpt_path_add(&path, in_add);
+	V_CHECK("binary add: accepted", r == 0);
+	V_CHECK("binary add: the path grows by the element and its two link bytes, the element bytes are untouched", path.len == in_len + (size_t) in_add + 2 && path.base == hb.data && IMP(in_k >= in_len && in_k < in_len + (size_t) in_add, hb.data[in_k] == in_data[in_k]) && IMP(in_len >= 2 && in_k < in_len - 1, hb.data[in_k] == in_data[in_k]));
+	r = mpt_path_del(&path);
+	V_CHECK("binary del: inverse of add - reports the element length and restores the previous path length", r == in_add && path.len == in_len);
+	V_COVER("accepted onto a non-empty path", in_len > 0);
+#else
 	r = mpt_path_add(&path, in_add);
 	V_CHECK("add: an element containing the separator is refused", IMP(has_sep, r < 0));
 	V_CHECK("add: refusal leaves the path unchanged", IMP(r < 0, path.len == in_len && path.base == hb.data && hb.b._used == in_used && hb.data[in_k] == in_data[in_k]));
@@ -52,5 +68,6 @@ void harness(void)
 	}
 	V_COVER("accepted onto a non-empty path", r >= 0 && in_len > 0);
 	V_COVER("refused", r < 0);
+#endif
 	V_CANARY();
 }
